@@ -43,6 +43,12 @@ TRANS = ["add_emitter_one_qubit_op", "add_photon_one_qubit_op", "replace_photon_
          "add_emitter_cnot", "remove_op", "add_measurement_cnot_and_reset"]
 
 
+def guard(res, stream, **kw):
+    """common.impl_guard for this harness: a circuit with an operation outside the wire model (wu.OutOfModel: parameterised gate, foreign
+    label) produced by a move or a solver is the implementation leaving the modelled domain — a correspondence break, not a harness crash"""
+    return impl_guard(res, stream, also=(wu.OutOfModel,), **kw)
+
+
 # ---------------------------------------------------------------------------------------------------------------- RNG
 class RngPatch:
     """intercepts np.random.randint / np.random.choice (library entry points)"""
@@ -571,10 +577,11 @@ def check_solver_runs(ctx, res, log, rs):
         comp = StabilizerCompiler()
         comp.measurement_determinism = 1
         setting = EvolutionarySolverSetting(n_hof=3, n_stop=6 if ctx.quick else 15, n_pop=4 if ctx.quick else 8)
-        state = {"anchors": {}}
+        state = {"anchors": {}, "moves": 0}
 
         def wrap(f):
             def run(circuit, *a, **kw):
+                state["moves"] += 1
                 before = wu.snapshot(circuit)
                 anchors = state["anchors"].setdefault(id(circuit), wu.fixed_anchor(circuit, initial=True))
                 mark = len(patch.calls)
@@ -604,6 +611,12 @@ def check_solver_runs(ctx, res, log, rs):
                           impl=f"{type(e).__name__}: {e}"[:300])
             continue
         res.traces_validated += 1
+        if state["moves"] == 0:
+            # the moves of solve() are observed through np.random.choice over the transformation list: a solver that no longer draws
+            # them there would run unobserved and this stream would compare nothing
+            res.exact_break("coverage collapsed: solve() moves observed", input={"fn": type(solver).__name__, "edges": sorted(g.edges())},
+                            impl="solve() returned but no transformation was drawn through np.random.choice", model="every generation applies moves")
+        res.extra["solve_moves_observed"] = res.extra.get("solve_moves_observed", 0) + state["moves"]
         for score, circ in solver.hof:
             res.evaluations += 1
             oracle(res, circ, None, "solver:hof", {"fn": type(solver).__name__, "edges": sorted(g.edges())})
@@ -853,13 +866,13 @@ def run(ctx):
     # reported (exit 1), it no longer leaves run() as a harness crash (exit 2)
     try:
         check_table(res, drv, table)
-        with impl_guard(res, "get_emission_assignment", promise=True):
+        with guard(res, "get_emission_assignment", promise=True):
             check_assignment(ctx, res, drv, EvolutionarySolver)
-        with impl_guard(res, "initialization", promise=True):
+        with guard(res, "initialization", promise=True):
             check_initialization(ctx, res, drv, rs)
         log = MoveLog(res, table)
         starts = []
-        with impl_guard(res, "start-circuits", promise=True):
+        with guard(res, "start-circuits", promise=True):
             starts = start_circuits(ctx, res, rs, 6 if ctx.quick else 12)
         coverage_floor(res, "start-circuits", len(starts), 2 * (6 if ctx.quick else 12), what="start circuits (initialization + TimeReversedSolver)")
         t_budget = 80 if ctx.quick else 540
@@ -867,7 +880,7 @@ def run(ctx):
         for k, (tag, solver, circ) in enumerate(starts):
             # quick: histories of 200 moves; thorough: two histories of 5000 moves, the others 1000
             per = 200 if ctx.quick else (5000 if k in (0, len(starts) // 2) else 600)
-            with impl_guard(res, "history", promise=True, input={"start": tag}):
+            with guard(res, "history", promise=True, input={"start": tag}):
                 check_cnot_helpers(res, drv, solver, circ, tag)
                 ok = run_history(ctx, res, log, solver, circ, per, rs, tag)
                 log.flush(drv)
@@ -878,7 +891,7 @@ def run(ctx):
                 break
         # hybrid randomize_circuit
         if not res.violations:
-            with impl_guard(res, "solver:solve", promise=True):
+            with guard(res, "solver:solve", promise=True):
                 check_solver_runs(ctx, res, log, rs)
             log.flush(drv)
         # exhaustive candidate enumeration on small solver circuits
@@ -897,12 +910,12 @@ def run(ctx):
                     res.violation(f"solver:time-reversed:raises:{err_class(e)}", "TimeReversedSolver returns a circuit for every connected target graph",
                                   input={"fn": "TimeReversedSolver", "edges": sorted(g.edges()), "n": g.number_of_nodes()}, impl=f"{type(e).__name__}: {e}"[:300])
                     continue
-                with impl_guard(res, "exhaustive-candidates", promise=True, input={"start": f"trs:{sorted(g.edges())}"}):
+                with guard(res, "exhaustive-candidates", promise=True, input={"start": f"trs:{sorted(g.edges())}"}):
                     exhaustive_candidates(ctx, res, drv, table, make_solver(g.number_of_nodes(), n_e), circ, f"trs:{sorted(g.edges())}",
                                           1 if ctx.quick else 2, rs, [0, 5] if ctx.quick else [0, 5, 23])
                     done_exh += 1
             for (n_p, n_e) in ([(2, 1), (2, 2)] if ctx.quick else [(1, 1), (2, 1), (2, 2), (3, 2), (3, 3)]):
-                with impl_guard(res, "exhaustive-candidates", promise=True, input={"start": f"init:np={n_p}:ne={n_e}"}):
+                with guard(res, "exhaustive-candidates", promise=True, input={"start": f"init:np={n_p}:ne={n_e}"}):
                     solver = make_solver(n_p, n_e)
                     for ea in itertools.product(range(n_e), repeat=n_p):
                         if ea[0] != 0 or time.time() - t_exh > budget_exh:
@@ -914,10 +927,10 @@ def run(ctx):
             res.notes.append(f"exhaustive candidate enumeration ({1 if ctx.quick else 2} move(s) deep) completed on {done_exh} initial circuits "
                              f"({len(graphs)} solver graphs of <= {3 if ctx.quick else 4} vertices planned) within {budget_exh}s")
         if not res.violations:
-            with impl_guard(res, "builds", promise=True):
+            with guard(res, "builds", promise=True):
                 check_builds(ctx, res, drv)
         if not res.violations:
-            with impl_guard(res, "solver:alternate-target", promise=True):
+            with guard(res, "solver:alternate-target", promise=True):
                 check_alternate_target(ctx, res)
     finally:
         res.extra["driver_lines"] = drv.n_lines
